@@ -17,6 +17,7 @@ import (
 	"perkeep.org/pkg/blobserver"
 
 	"verif.local/harness/ev"
+	"verif.local/harness/inject"
 	"verif.local/harness/sto"
 )
 
@@ -215,6 +216,68 @@ func packedTrees(thorough bool) []*sto.Spec {
 	return out
 }
 
+// repeatTrees are the directed trees of the "one chunk used several times" file family (files with
+// repeated content): blobpacked at the root (volatile and durable meta, so that some histories
+// re-create it) and below stores that hand it whole blobs.
+func repeatTrees(thorough bool) []*sto.Spec {
+	bp := func(meta string, small, large *sto.Spec) *sto.Spec {
+		return sp("blobpacked", map[string]any{"meta": meta}, small, large)
+	}
+	out := []*sto.Spec{
+		bp("memory", mem(), mem()),
+		bp("leveldb", mem(), sp("localdisk", nil)),
+		sp("cond", nil, bp("memory", mem(), mem()), mem()),
+		sp("proxycache", map[string]any{"cacheBytes": 1 << 20}, bp("kv", sp("localdisk", nil), mem())),
+		sp("replica", nil, bp("memory", mem(), mem()), mem()),
+	}
+	if thorough {
+		out = append(out,
+			bp("sqlite", sp("diskpacked", map[string]any{"meta": "leveldb"}), sp("diskpacked", map[string]any{"meta": "leveldb"})),
+			sp("overlay", nil, mem(), bp("memory", mem(), mem())),
+			sp("namespace", map[string]any{"sibling": "no"}, bp("memory", mem(), mem())),
+			sp("shard", nil, bp("leveldb", mem(), mem())),
+			bp("memory", bp("memory", mem(), mem()), mem()),
+		)
+	}
+	return out
+}
+
+// readOnlyBelowTrees put a read-only store (union) where another store writes: every receive through
+// the tree is refused, and a refused receive changes nothing - the blob stays absent for fetch, ranged
+// fetch, stat and enumerate alike (whatever cache or second layer the refusing store has).
+func readOnlyBelowTrees() []*sto.Spec {
+	u := func(kids ...*sto.Spec) *sto.Spec { return sp("union", nil, kids...) }
+	pc := func(n int, kid *sto.Spec) *sto.Spec {
+		return sp("proxycache", map[string]any{"cacheBytes": n}, kid)
+	}
+	return []*sto.Spec{
+		pc(300, u(mem(), mem())),
+		pc(1<<20, u(mem(), sp("localdisk", nil))),
+		pc(5000, u(sp("overlay", nil, mem(), mem()))),
+		sp("overlay", nil, mem(), pc(1<<20, u(mem(), mem()))),
+		sp("cond", nil, pc(5000, u(mem(), mem())), mem()),
+		sp("overlay", nil, mem(), u(mem(), mem())),
+		sp("cond", nil, u(mem(), mem()), mem()),
+	}
+}
+
+// faultedOriginTrees have exactly one leaf that receives blobs (a memory store behind an
+// inject.Storage), below a proxycache: single receives are made to fail in that leaf (with and without
+// the write having happened).  The failed receive leaves the blob either present or absent - but the
+// same for every later read.
+func faultedOriginTrees() []*sto.Spec {
+	pc := func(n int, kid *sto.Spec) *sto.Spec {
+		return sp("proxycache", map[string]any{"cacheBytes": n}, kid)
+	}
+	return []*sto.Spec{
+		pc(1<<20, mem()),
+		pc(5000, mem()),
+		pc(1<<20, sp("namespace", map[string]any{"sibling": "no"}, mem())),
+		sp("shard", nil, pc(1<<20, mem())),
+		pc(300, pc(1<<20, mem())),
+	}
+}
+
 func leafSub(rng *rand.Rand) *sto.Spec {
 	switch rng.Intn(3) {
 	case 0:
@@ -298,19 +361,34 @@ func run(r *ev.Run) {
 		// crafted >= 0: a directed blobpacked history; the value is the position of its first crafted
 		// file in the rotation over sto.CraftedVariants().  -1: an ordinary history.
 		crafted int
+		// mode selects a round-5 directed family ("" = none): "repeat" (files naming one chunk several
+		// times; crafted = rotation start in sto.CraftedRepeatVariants()), "readonly" (a read-only store
+		// where the tree writes), "faulted" (single receives fail in the only receiving leaf).
+		mode string
 	}
 	var jobs []job
 	for _, s := range singles(r.Thorough()) {
-		jobs = append(jobs, job{s, r.Pick(6, 12), true, -1})
+		jobs = append(jobs, job{s, r.Pick(6, 12), true, -1, ""})
 	}
 	crng := r.Rand("compositions")
 	for i := 0; i < r.Pick(40, 300); i++ {
-		jobs = append(jobs, job{composition(crng, 3), r.Pick(2, 2), false, -1})
+		jobs = append(jobs, job{composition(crng, 3), r.Pick(2, 2), false, -1, ""})
 	}
 	// directed blobpacked trees (appended last: the case ids of the histories above do not move)
 	for i, s := range packedTrees(r.Thorough()) {
 		n := r.Pick(3, 8)
-		jobs = append(jobs, job{s, n, s.Kind == "blobpacked", i * n * craftedPerHistory})
+		jobs = append(jobs, job{s, n, s.Kind == "blobpacked", i * n * craftedPerHistory, ""})
+	}
+	// round-5 directed families (appended after everything else for the same reason)
+	for i, s := range repeatTrees(r.Thorough()) {
+		n := r.Pick(2, 5)
+		jobs = append(jobs, job{s, n, false, i * n, "repeat"})
+	}
+	for _, s := range readOnlyBelowTrees() {
+		jobs = append(jobs, job{s, r.Pick(2, 6), false, -1, "readonly"})
+	}
+	for _, s := range faultedOriginTrees() {
+		jobs = append(jobs, job{s, r.Pick(3, 8), false, -1, "faulted"})
 	}
 	// histories are independent (own scratch dir, own PRNG stream keyed by case): a small pool runs them
 	type hcase struct {
@@ -343,8 +421,11 @@ func run(r *ev.Run) {
 					first := -1
 					if hc.j.crafted >= 0 {
 						first = hc.j.crafted + hc.h*craftedPerHistory
+						if hc.j.mode == "repeat" {
+							first = hc.j.crafted + hc.h
+						}
 					}
-					samples[i] = runHistory(r, root, hc.id, hc.j.spec, hc.j.single, hc.h, first)
+					samples[i] = runHistory(r, root, hc.id, hc.j.spec, hc.j.single, hc.h, first, hc.j.mode)
 				})
 			}
 		}()
@@ -367,6 +448,14 @@ func run(r *ev.Run) {
 	// crafted file schemas reached blobpacked stores at the root and below other stores, in every variant
 	r.Require("events", "crafted-file-to-root-blobpacked", "crafted-file-to-nested-blobpacked")
 	r.Require("crafted_variants", sto.CraftedVariants()...)
+	// files naming one chunk several times (with chunks after the repeat) were delivered alone, seen
+	// packed (a zip appeared in the large store) and read back blob by blob, in every variant
+	r.Require("repeat_variants_packed", sto.CraftedRepeatVariants()...)
+	// receives refused by a read-only store below a proxycache / overlay / cond, and receives that failed
+	// in the only receiving leaf below a proxycache (before and after the leaf stored the blob), each of
+	// a blob that was absent and was read back in every way right afterwards
+	r.Require("events", "refused-receive-through-proxycache", "refused-receive-through-overlay", "refused-receive-through-cond",
+		"faulted-receive-of-absent-blob:error", "faulted-receive-of-absent-blob:error-after-effect")
 	// every root kind that implements blob.SubFetcher saw the documented boundary ranges on present blobs
 	for _, kind := range []string{"memory", "localdisk", "diskpacked", "blobpacked", "proxycache"} {
 		for _, cat := range []string{"off==size", "len==0", "empty-blob", "clipped", "off>size", "huge-length"} {
@@ -375,7 +464,7 @@ func run(r *ev.Run) {
 	}
 }
 
-func runHistory(r *ev.Run, root, id string, spec *sto.Spec, single bool, h int, craftedFirst int) (sample *caseRec) {
+func runHistory(r *ev.Run, root, id string, spec *sto.Spec, single bool, h int, craftedFirst int, mode string) (sample *caseRec) {
 	rng := r.Rand(fmt.Sprintf("history/%s/%s/%d", id, spec, h))
 	dir, err := os.MkdirTemp(root, "h")
 	if err != nil {
@@ -384,6 +473,13 @@ func runHistory(r *ev.Run, root, id string, spec *sto.Spec, single bool, h int, 
 	}
 	defer os.RemoveAll(dir)
 	env := &sto.Env{Dir: dir, NestedPreload: true, DeepReopen: true}
+	var plan *inject.Plan
+	if mode == "faulted" {
+		// only the receives of the wrapped leaves are counted (and can be made to fail)
+		plan = inject.NewPlan()
+		plan.Match = func(layer, op string) bool { return op == "ReceiveBlob" }
+		env.Plan = plan
+	}
 	b, err := sto.Build(env, spec)
 	if err != nil {
 		r.Inconclusive(fmt.Sprintf("cannot build %s: %v", spec, err))
@@ -400,7 +496,7 @@ func runHistory(r *ev.Run, root, id string, spec *sto.Spec, single bool, h int, 
 		universe = withBig(rng, universe)
 	}
 	rng.Shuffle(len(universe), func(i, j int) { universe[i], universe[j] = universe[j], universe[i] })
-	packing := hasKind(spec, "blobpacked") && h%2 == 0
+	packing := hasKind(spec, "blobpacked") && h%2 == 0 && mode != "repeat"
 	var fileBlobs []sto.Blob
 	if packing {
 		content := make([]byte, 600<<10+rng.Intn(200<<10))
@@ -423,6 +519,9 @@ func runHistory(r *ev.Run, root, id string, spec *sto.Spec, single bool, h int, 
 	// the odd histories of every other tree that contains a blobpacked store (seeded variant)
 	nCrafted := 0
 	switch {
+	case mode == "repeat":
+		// the first file is delivered alone before anything else (prologue), the second one mixed with the other ops
+		nCrafted = 2
 	case craftedFirst >= 0:
 		nCrafted = craftedPerHistory
 	case hasKind(spec, "blobpacked") && h%2 == 1:
@@ -430,9 +529,13 @@ func runHistory(r *ev.Run, root, id string, spec *sto.Spec, single bool, h int, 
 	}
 	var crafted []sto.CraftedFile
 	craftedQ := map[int]int{} // queue index -> crafted index
+	var prologue *sto.CraftedFile
 	if nCrafted > 0 {
 		crng := r.Rand("crafted/" + id) // own stream
 		vs := sto.CraftedVariants()
+		if mode == "repeat" {
+			vs = sto.CraftedRepeatVariants()
+		}
 		inUniverse := map[blob.Ref]bool{}
 		for _, u := range universe {
 			inUniverse[u.Ref] = true
@@ -470,6 +573,10 @@ func runHistory(r *ev.Run, root, id string, spec *sto.Spec, single bool, h int, 
 					inUniverse[x.Ref] = true
 					universe = append(universe, x)
 				}
+			}
+			if mode == "repeat" && i == 0 {
+				prologue = &cf
+				continue
 			}
 			craftedQ[len(queues)] = len(crafted)
 			queues = append(queues, cf.Blobs)
@@ -591,6 +698,78 @@ func runHistory(r *ev.Run, root, id string, spec *sto.Spec, single bool, h int, 
 		}
 		return live[rng.Intn(len(live))]
 	}
+	// number of blobs the large (zip) stores of the tree list
+	zips := func() int {
+		n := 0
+		for _, lg := range b.Larges {
+			n += countBlobs(lg)
+		}
+		return n
+	}
+	prologuePacked := false
+	if prologue != nil {
+		// The file arrives alone: chunks, inner schema blobs, the file schema last.  Packing is observed
+		// (a zip appears in a large store); then every blob of the file is read back whole and in ranges
+		// while its only copy may be the one inside the zip.
+		before := zips()
+		for i, fb := range prologue.Blobs {
+			what := "repeat-file-part"
+			if i == len(prologue.Blobs)-1 {
+				what = "repeat-file-schema:" + prologue.Variant
+			}
+			log("receive", fb.String(), what)
+			c.Receive(fb)
+		}
+		prologuePacked = zips() > before
+		r.Count("repeat_files_delivered_alone", 1)
+		if prologuePacked {
+			r.Note("repeat_variants_packed", prologue.Variant)
+			r.Note("repeat_packed_under", spec.Kind)
+			r.Count("repeat_files_packed_alone", 1)
+		}
+		for _, fb := range prologue.Blobs {
+			n := int64(len(fb.Data))
+			log("fetch", fb.String(), "after-pack")
+			c.Fetch(fb)
+			log("subfetch-edges", fb.String(), "after-pack")
+			c.SubFetchEdges(fb)
+			for j := 0; j < 3 && n > 0; j++ {
+				off := rng.Int63n(n)
+				ln := 1 + rng.Int63n(n-off)
+				log("subfetch", fb.String(), fmt.Sprintf("%d+%d", off, ln))
+				c.SubFetch(fb, off, ln)
+			}
+			if prologuePacked {
+				r.Count("repeat_blobs_read_after_pack", 1)
+			}
+		}
+		log("stat", fmt.Sprintf("%d refs of the file", len(prologue.Blobs)), "after-pack")
+		c.Stat(prologue.Blobs)
+	}
+	// probe reads bl back in every way right after a receive that did not (or may not) take effect,
+	// before any cache below has a reason to evict it; the order is seeded
+	probe := func(bl sto.Blob) {
+		n := int64(len(bl.Data))
+		for _, p := range rng.Perm(4) {
+			if c.Dead {
+				return
+			}
+			switch p {
+			case 0:
+				log("fetch", bl.String(), "probe")
+				c.Fetch(bl)
+			case 1:
+				log("subfetch", bl.String(), fmt.Sprintf("0+%d probe", n))
+				c.SubFetch(bl, 0, n)
+			case 2:
+				log("stat", fmt.Sprintf("1 refs starting %s", bl.Ref), "probe")
+				c.Stat([]sto.Blob{bl})
+			default:
+				log("enumerate", "\"\"", "1000 probe")
+				c.Enumerate("", 1000)
+			}
+		}
+	}
 	for i := 0; i < nops && !c.Dead && reported < 5; i++ {
 		k := rng.Intn(100)
 		q := -1
@@ -641,8 +820,47 @@ func runHistory(r *ev.Run, root, id string, spec *sto.Spec, single bool, h int, 
 				r.Note("events", "duplicate-receive")
 			}
 			lastRecvSize = len(bl.Data)
+			if plan != nil {
+				// every second receive fails in the receiving leaf: before or after the leaf stored the blob
+				nd := len(plan.Delivered)
+				fm := inject.Pass
+				if rng.Intn(2) == 0 {
+					fm = []inject.Mode{inject.Error, inject.ErrorAfterEffect}[rng.Intn(2)]
+					plan.FaultAt(plan.Calls(), fm)
+					c.Tolerate = true
+					rec.Ops[len(rec.Ops)-1].Arg2 = "leaf receive fails: " + fm.String()
+				}
+				_, was := c.Present[bl.Ref]
+				c.Receive(bl)
+				plan.ClearFaults()
+				c.Tolerate = false
+				if len(plan.Delivered) > nd && c.LastErr() != nil {
+					r.Count("faulted_receives", 1)
+					r.Note("events", "faulted-receive:"+fm.String())
+					if !was {
+						r.Note("events", "faulted-receive-of-absent-blob:"+fm.String())
+					}
+					probe(bl)
+				}
+				lastRecvSize = -1
+				break
+			}
 			c.Receive(bl)
 			lastRecvSize = -1
+			if !c.Caps.Receive && c.LastErr() != nil {
+				r.Count("refused_receives", 1)
+				if mode == "readonly" {
+					if _, p := c.Present[bl.Ref]; !p {
+						r.Count("refused_receives_of_absent_blob_probed", 1)
+						for _, kind := range []string{"proxycache", "overlay", "cond"} {
+							if hasKind(spec, kind) {
+								r.Note("events", "refused-receive-through-"+kind)
+							}
+						}
+					}
+					probe(bl)
+				}
+			}
 			if len(bl.Data) > sto.SchemaCap+1 && c.LastErr() == nil {
 				r.Count("big_blob_receives", 1)
 				r.Note("events", "big-blob-received")
@@ -788,6 +1006,12 @@ func runHistory(r *ev.Run, root, id string, spec *sto.Spec, single bool, h int, 
 			break
 		}
 	}
+	if mode == "repeat" {
+		r.Count("repeat_histories", 1)
+		if prologuePacked && craftedDone > 0 && zips() >= 2 {
+			r.Count("repeat_histories_with_both_files_packed", 1)
+		}
+	}
 	if len(crafted) > 0 {
 		r.Count("crafted_histories", 1)
 		r.Count("crafted_files_not_delivered", len(crafted)-craftedDone)
@@ -837,6 +1061,19 @@ func storeHasBlob(s blobserver.Storage) bool {
 	}
 	<-errc
 	return n > 0
+}
+
+// countBlobs is the number of blobs s enumerates (up to 1000).
+func countBlobs(s blobserver.Storage) int {
+	ch := make(chan blob.SizedRef, 16)
+	errc := make(chan error, 1)
+	go func() { errc <- s.EnumerateBlobs(context.Background(), ch, "", 1000) }()
+	n := 0
+	for range ch {
+		n++
+	}
+	<-errc
+	return n
 }
 
 func markKinds(r *ev.Run, s *sto.Spec) {
